@@ -4,7 +4,7 @@ from __future__ import annotations
 from typing import Any, Dict, List
 
 from ..sim.gen import profile
-from .simprop import (DRAIN, SimEngine, abandon_then_close_family, blocked_spawners_family, close_overlap_family, double_cancel_family, failed_close_then_unlock_family, flush_raises_family, flush_vs_spawner_family, name_reuse_family, rejected_then_cancel_family, sibling_maps_family, thousand_tasks_family, two_flushes_family, overlap_family, sweep_space,
+from .simprop import (DRAIN, SimEngine, abandon_then_close_family, blocked_spawners_family, close_overlap_family, double_cancel_family, failed_close_then_unlock_family, flush_raises_family, flush_vs_spawner_family, name_reuse_family, rejected_then_cancel_family, sibling_maps_family, swallow_then_cancel_again_family, thousand_tasks_family, two_flushes_family, overlap_family, sweep_space,
                       two_pools_family, worker_in_flush_family)
 
 FIN = [1, 1, 2, 2, 3, 4, 0, None]
@@ -189,7 +189,7 @@ def _c07() -> SimEngine:
 
 
 def _c08() -> SimEngine:
-    prof = profile(sizes=[1, 2, 2, 3, None], end_with_close=0.9, p_cb=0.6, p_cb_wait=0.5,
+    prof = profile(sizes=[1, 2, 2, 3, None], end_with_close=0.9, p_cb=0.6, p_cb_wait=0.5, p_callfault=0.15,
                    ops={"close": 1.5, "until_closed": 1.2, "cancel_group": 1.5, "cancel": 1, "spawn": 9, "gate": 8, "lock": 0.3, "flush": 1.2, "abandon": 0.8})
 
     def sw(tier: str):
@@ -352,7 +352,8 @@ _DC = ("double-cancel family (a task in its slow cancel callback is hit by a gro
 _TF = ("two-flushes family (overlapping flush() calls, tasks entering their end callbacks in between, ids probed afterwards)", lambda t: two_flushes_family(_thin(t, 4)))
 _SM = ("sibling-maps family (2-3 groups of the map family and apply side by side, one cancelled, the others run to the end)", lambda t: sibling_maps_family(_thin(t, 3)))
 _FC = ("failed-close-then-unlock family (gather_and_close raises a task's exception: pool locked, not closed; unlock reopens; a later close closes for good)", lambda t: failed_close_then_unlock_family())
-FAMILIES = {"C09": [_RC, _FC], "C05": [_SM], "C01": [_FS], "C08": [_FC, _FS, _DC, ("abandon-then-close family (a task left in asyncio's cancelled state by the user's own cancellation of a flush() caller, healthy tasks still running at gather_and_close)", lambda t: abandon_then_close_family(_thin(t, 2)))], "C02": [_BS, _FS, _DC], "C03": [_TP, _FX, _DC, _TF], "C04": [_NR, _BS], "C06": [_WF, _TP, _FR, _FX, _TF], "C13": [_FX, _TF], "C07": [_NR, _WF, _FS, _DC, _SM], "C10": [_NR], "C11": [_BS, _TP, ("thousand-tasks family (ids with four digits in task names, groups, callbacks)", lambda t: thousand_tasks_family())], "C14": [_BSS]}
+_SW = ("swallow-then-cancel-again family (a worker that shrugged off one cancellation is cancelled again by id / group / globally / stop)", lambda t: swallow_then_cancel_again_family())
+FAMILIES = {"C09": [_RC, _FC], "C05": [_SM], "C01": [_FS], "C08": [_FC, _FS, _DC, ("abandon-then-close family (a task left in asyncio's cancelled state by the user's own cancellation of a flush() caller, healthy tasks still running at gather_and_close)", lambda t: abandon_then_close_family(_thin(t, 2)))], "C02": [_BS, _FS, _DC], "C03": [_TP, _FX, _DC, _TF], "C04": [_NR, _BS], "C06": [_WF, _TP, _FR, _FX, _TF, _SW], "C13": [_FX, _TF], "C07": [_NR, _WF, _FS, _DC, _SM, _SW], "C10": [_NR], "C11": [_BS, _TP, ("thousand-tasks family (ids with four digits in task names, groups, callbacks)", lambda t: thousand_tasks_family())], "C14": [_BSS, _SW]}
 
 
 def make(pid: str) -> SimEngine:
